@@ -29,6 +29,7 @@ ASSUMPTIONS = ["sympy.parsing.sympy_parser.parse_expr evaluates only names prese
 
 PAR = "unyt/_parsing.py"
 UO = "unyt/unit_object.py"
+US = "unyt/unit_systems.py"
 ARR = "unyt/array.py"
 
 
@@ -119,8 +120,25 @@ def vocabulary(repo, res):
 SYMPY_CLASSES = {"Number", "Symbol", "Pow", "Mul", "Expr", "Basic", "Rational", "Float", "Integer"}
 
 
+def _operand_kinds(fn, lookup_name, binop):
+    k = _kind_fn(fn, lookup_name)
+    return (k(binop.left), k(binop.right))
+
+
 def _python_float_powers(fn, lookup_name):
     """`a ** b` nodes of fn whose two operands are both inferred to be Python numbers"""
+    kind = _kind_fn(fn, lookup_name)
+    out = []
+    for n in walk_no_nested(fn.node):
+        if isinstance(n, ast.BinOp) and isinstance(n.op, ast.Pow) and kind(n.left) == "py" and kind(n.right) == "py":
+            if isinstance(n.right, ast.Constant) and abs(n.right.value) <= 4:
+                continue  # a small literal exponent cannot leave the range for the table's scales
+            out.append(n)
+    return out
+
+
+def _kind_fn(fn, lookup_name):
+    """kind(expr) -> 'py' | 'sympy' | 'row' | '?' for expressions of fn (see exceptions())"""
     sympy_names = set()
     for n in ast.walk(fn.node):
         if isinstance(n, ast.Call) and norm(n.func) == "isinstance" and len(n.args) == 2 and isinstance(n.args[0], ast.Name):
@@ -171,23 +189,17 @@ def _python_float_powers(fn, lookup_name):
             return kind(e.operand, depth + 1)
         return "?"
 
-    out = []
-    for n in walk_no_nested(fn.node):
-        if isinstance(n, ast.BinOp) and isinstance(n.op, ast.Pow) and kind(n.left) == "py" and kind(n.right) == "py":
-            if isinstance(n.right, ast.Constant) and abs(n.right.value) <= 4:
-                continue  # a small literal exponent cannot leave the range for the table's scales
-            out.append(n)
-    return out
+    return kind
 
 
-def _caught_as_parse_error(fn, node):
+def _caught_as_parse_error(fn, node, excs=("OverflowError", "ArithmeticError")):
     """node lies in the body of a try of fn with a handler for OverflowError (or a base class) that ends in
     `raise UnitParseError`"""
     for t in ast.walk(fn.node):
         if isinstance(t, ast.Try) and any(node is x for b in t.body for x in ast.walk(b)):
             for h in t.handlers:
                 names = [] if h.type is None else ([norm(e) for e in h.type.elts] if isinstance(h.type, ast.Tuple) else [norm(h.type)])
-                if (h.type is None or set(names) & {"OverflowError", "ArithmeticError", "Exception", "BaseException"}) and h.body and is_raise_of(h.body[-1], "UnitParseError"):
+                if (h.type is None or set(names) & (set(excs) | {"Exception", "BaseException"})) and h.body and is_raise_of(h.body[-1], "UnitParseError"):
                     return True
     return False
 
@@ -254,6 +266,31 @@ def exceptions(repo, res):
     for node in py_pows:
         if not (_caught_as_parse_error(walk, node) or all(_caught_as_parse_error(new, c) for c in ast.walk(new.node) if isinstance(c, ast.Call) and norm(c.func) == walk.name)):
             escaping.append(norm(node))
+    # float(<py> ** <sympy>): a negative base with a fractional exponent gives a complex sympy number, and float() of
+    # that raises TypeError ("Cannot convert complex to float") - Unit('(-8)**(1/3)')
+    cplx = []
+    for c in walk_no_nested(walk.node):
+        if isinstance(c, ast.Call) and norm(c.func) == "float" and len(c.args) == 1 and isinstance(c.args[0], ast.BinOp) and isinstance(c.args[0].op, ast.Pow):
+            kinds = _operand_kinds(walk, lk.name, c.args[0])
+            if "sympy" in kinds and not (_caught_as_parse_error(walk, c, ("TypeError",)) or all(_caught_as_parse_error(new, c2, ("TypeError",)) for c2 in ast.walk(new.node) if isinstance(c2, ast.Call) and norm(c2.func) == walk.name)):
+                cplx.append(c)
+    res.check(not cplx, "walk:complex-power", walk.where(cplx[0]) if cplx else walk.where(), "float() of a power with a symbolic exponent is not protected: a negative number raised to a fractional power is complex and float() raises TypeError instead of UnitParseError - Unit('(-8)**(1/3)')", "try/except TypeError -> UnitParseError around the conversion", [norm(c) for c in cplx][:2], rid=r2)
+    # name[<int>] on a symbol name: the parser's vocabulary contains Symbol, so Symbol('') reaches the lookup with an
+    # empty name; an index (unlike a slice) raises IndexError on it
+    from engine.flow import enum_paths as _ep
+
+    idx = []
+    for f in (lk, repo.mod(US).func("_split_prefix")):
+        res.fn(f)
+        sp = f.params[0]
+        for n in walk_no_nested(f.node):
+            if isinstance(n, ast.Subscript) and isinstance(n.value, ast.Name) and n.value.id == sp and isinstance(n.ctx, ast.Load) and not isinstance(n.slice, ast.Slice):
+                if isinstance(n.slice, ast.Constant) and isinstance(n.slice.value, int):
+                    guarded = any(isinstance(i_, ast.If) and norm(i_.test) in (sp, f"len({sp}) > 0", f"{sp} != ''", f"len({sp})") and any(n is y for b in i_.body for y in ast.walk(b)) for i_ in ast.walk(f.node))
+                    early = any(isinstance(i_, ast.If) and norm(i_.test) in (f"not {sp}", f"len({sp}) == 0", f"{sp} == ''") and isinstance(i_.body[-1], (ast.Return, ast.Raise)) and i_.lineno < n.lineno for i_ in f.body)
+                    if not (guarded or early):
+                        idx.append((f, n))
+    res.check(not idx, "lookup:index-on-empty-name", idx[0][0].where(idx[0][1]) if idx else lk.where(), "the symbol name is indexed without a guard: Unit(\"Symbol('')\") reaches the lookup with an empty name and IndexError escapes instead of UnitParseError", "a slice (name[:1]) or an emptiness test before the index", [norm(n) for _, n in idx], rid=r2)
     res.check(not escaping, "walk:python-power", walk.where(py_pows[0]) if py_pows else walk.where(), "the structural walk raises a Python float to a Python float power outside any try: Unit('km**400') lets OverflowError escape instead of succeeding or raising UnitParseError", "a power with a sympy operand (saturates), or an except clause converting the error to UnitParseError", escaping[:3], rid=r2)
 
 
@@ -309,6 +346,13 @@ def printer_parser(repo, res):
             stands = ast.literal_eval(cond[len("unit_str == "):])
         if stands is None:
             raise AnalysisError(f"{where}: cannot tell which unit the literal {lit!r} stands for ({cond})")
+        if cond == "self.expr == sympy_one" and meth == "__str__":
+            # ... and to the *identical expression and hash*: the unit printed here has the expression 1; the text is
+            # read back as the Symbol of that name unless the parser turns the name into the number one
+            rewritten = lit
+            for a_, b_ in rewrites:
+                rewritten = rewritten.replace(a_, b_)
+            res.check(rewritten.strip() in ("1", "1.0", ""), f"{meth}:{lit}:expression", where, f"str() of the unit whose expression is 1 is {lit!r}; the parser reads that name as the symbol {rewritten!r} of the table, an equal unit with a different expression: hash(Unit()) != hash(Unit(str(Unit()))), so the text persisted for a dimensionless array does not rebuild the identical unit", "text that parses to the expression 1", f"Symbol({rewritten!r})", rid=r3)
         got = reads_as(lit)
         res.check(got == stands, f"{meth}:{lit}", where, f"{meth} prints {stands!r} as {lit!r}, which the parser reads as {got!r}: text written by savetxt / pickle / HDF5 for this unit cannot be read back", stands, got, rid=r3)
 
@@ -389,7 +433,10 @@ MUTANTS = [
     Mutant("degree-rewrite-dropped", PAR, "parse_unyt_expr", '    unit_expr = unit_expr.replace("°", "deg")\n', "", ("C20-R3", "C20-R2")),
     Mutant("pickle-stores-repr", ARR, "unyt_array.__reduce__", "str(self.units), self.units.registry.lut", "self.units.latex_repr, self.units.registry.lut", ("C20-R4",)),
     Mutant("walk-python-power", UO, "_get_unit_data_from_expr", "conv = float(unit_data[0] ** power)", "conv = unit_data[0] ** float(power)", ("C20-R2",)),
-    Mutant("walk-python-power-guarded", UO, "_get_unit_data_from_expr", "        conv = float(unit_data[0] ** power)\n", "        try:\n            conv = unit_data[0] ** float(power)\n        except OverflowError:\n            raise UnitParseError(f\"Invalid unit expression '{unit_expr}'.\")\n", (), benign=True),
+    Mutant("walk-python-power-guarded", UO, "_get_unit_data_from_expr", "            conv = float(unit_data[0] ** power)\n        except TypeError:", "            conv = unit_data[0] ** float(power)\n        except (TypeError, OverflowError):", (), benign=True),
+    Mutant("complex-power-unprotected", UO, "_get_unit_data_from_expr", "        except TypeError:\n", "        except KeyError:\n", ("C20-R2",)),
+    Mutant("prefix-split-indexes-name", US, "_split_prefix", "possible_prefix = symbol_str[:1]", "possible_prefix = symbol_str[0]", ("C20-R2",)),
+    Mutant("prefix-split-guarded-index", US, "_split_prefix", "    possible_prefix = symbol_str[:1]\n", "    if not symbol_str:\n        return \"\", symbol_str\n    possible_prefix = symbol_str[0]\n", (), benign=True),
     Mutant("walk-double-cast", UO, "_get_unit_data_from_expr", "conv = float(unit_data[0] ** power)", "conv = float(float(unit_data[0]) ** power)", (), benign=True),
     Mutant("header-joined-by-delimiter", ARR, "savetxt", '"\\t".join(units)', "delimiter.join(units)", ("C20-R4",)),
     Mutant("header-joined-by-space", ARR, "savetxt", '"\\t".join(units)', '" ".join(units)', (), benign=True),
